@@ -10,6 +10,7 @@ import (
 	"fmt"
 	"sort"
 	"strings"
+	"time"
 
 	"github.com/gofiber/fiber/v3/client"
 	"github.com/gofiber/fiber/v3/verifrt"
@@ -54,11 +55,55 @@ type hreq struct {
 	Cancel bool // the environment may cancel this request's context
 	Fail   bool // the environment fails it instead of responding
 	After  string
+	// Timeout is the request-level timeout: "" (none), "tiny" (1ns: the deadline has passed when the context is
+	// created, so its Done channel is closed deterministically — no timer involved) or "huge" (1h: never fires).
+	Timeout string
+	// Via tells how the request-level settings are given: "" = setters on a Request, "config" = client.Get(url, Config{...})
+	Via string
+	// Late: the network decides the fate of this request only after its caller has got an answer (a server slower
+	// than the timeout); only meaningful when the effective timeout is tiny.
+	Late bool
 }
 
 type hparams struct {
 	// Callers: each caller thread issues its requests sequentially
 	Callers [][]hreq
+	// ClientTimeout is the client-level timeout ("" | "tiny" | "huge")
+	ClientTimeout string
+}
+
+func timeoutValue(s string) time.Duration {
+	switch s {
+	case "tiny":
+		return time.Nanosecond
+	case "huge":
+		return time.Hour
+	}
+	return 0
+}
+
+// effectiveTimeout: the request-level timeout takes precedence over the client-level one (statement).
+func effectiveTimeout(rq hreq, p hparams) string {
+	if rq.Timeout != "" {
+		return rq.Timeout
+	}
+	return p.ClientTimeout
+}
+
+// tinyTimeoutIsImmediate checks the harness assumption behind "tiny": a context with a 1ns timeout is done when
+// context.WithTimeout returns (the deadline has passed by the time it is compared with the clock).
+func tinyTimeoutIsImmediate() bool {
+	for i := 0; i < 2000; i++ {
+		ctx, cancel := context.WithTimeout(context.Background(), time.Nanosecond)
+		select {
+		case <-ctx.Done():
+			cancel()
+		default:
+			cancel()
+			return false
+		}
+	}
+	return true
 }
 
 type hobs struct {
@@ -75,9 +120,13 @@ func runHandoff(p hparams) func(e *schedx.Exec) *schedx.Outcome {
 		curEnv = env
 		var obs []hobs
 		cancelled := map[string]bool{}
+		returned := map[string]bool{} // the caller of this request has its answer
 		probe := ""
-		res := verifrt.Run(e.Chooser(), verifrt.Options{MaxSteps: 20000, StateKey: func() string { return fmt.Sprint(env.decided, cancelled, len(obs)) }}, func() {
+		res := verifrt.Run(e.Chooser(), verifrt.Options{MaxSteps: 20000, StateKey: func() string { return fmt.Sprint(env.decided, cancelled, returned, len(obs)) }}, func() {
 			cl := client.NewWithClient(fh)
+			if d := timeoutValue(p.ClientTimeout); d > 0 {
+				cl.SetTimeout(d)
+			}
 			cancels := map[string]context.CancelFunc{}
 			ctxs := map[string]context.Context{}
 			for _, c := range p.Callers {
@@ -93,7 +142,11 @@ func runHandoff(p hparams) func(e *schedx.Exec) *schedx.Outcome {
 				for _, rq := range c {
 					rq := rq
 					verifrt.GoNamed("net:"+rq.ID, false, func() {
-						verifrt.YieldOn("env.decide:"+rq.ID, env)
+						if rq.Late {
+							verifrt.Point("env.decide-late:"+rq.ID, env, func() bool { return returned[rq.ID] })
+						} else {
+							verifrt.YieldOn("env.decide:"+rq.ID, env)
+						}
 						if rq.Fail {
 							env.decided[rq.ID] = "fail"
 						} else {
@@ -113,12 +166,26 @@ func runHandoff(p hparams) func(e *schedx.Exec) *schedx.Outcome {
 				c := c
 				verifrt.GoNamed(fmt.Sprintf("caller%d", ci+1), false, func() {
 					for _, rq := range c {
-						r := cl.R()
-						r.SetHeader("X-Id", rq.ID)
-						if ctx, ok := ctxs[rq.ID]; ok {
-							r.SetContext(ctx)
+						var resp *client.Response
+						var err error
+						if rq.Via == "config" {
+							cfg := client.Config{Header: map[string]string{"X-Id": rq.ID}, Timeout: timeoutValue(rq.Timeout)}
+							if ctx, ok := ctxs[rq.ID]; ok {
+								cfg.Ctx = ctx
+							}
+							resp, err = cl.Get("http://server.test/"+rq.ID, cfg)
+						} else {
+							r := cl.R()
+							r.SetHeader("X-Id", rq.ID)
+							if ctx, ok := ctxs[rq.ID]; ok {
+								r.SetContext(ctx)
+							}
+							if d := timeoutValue(rq.Timeout); d > 0 {
+								r.SetTimeout(d)
+							}
+							resp, err = r.Get("http://server.test/" + rq.ID)
 						}
-						resp, err := r.Get("http://server.test/" + rq.ID)
+						returned[rq.ID] = true
 						o := hobs{ID: rq.ID}
 						if err != nil {
 							o.Err = err.Error()
@@ -151,7 +218,21 @@ func runHandoff(p hparams) func(e *schedx.Exec) *schedx.Outcome {
 			viol("panic "+stripThread(firstLine(res.Panics[0])), "a client goroutine panicked", res.Panics, nil)
 		}
 		if res.Deadlock {
-			viol("deadlock blocked="+strings.Join(threadKinds(res.Blocked), ","), "a caller or worker goroutine is blocked forever (leak)", res.Blocked, nil)
+			what := "a caller or worker goroutine is blocked forever (leak)"
+			sig := "deadlock blocked=" + strings.Join(threadKinds(res.Blocked), ",")
+			for _, c := range p.Callers {
+				for _, rq := range c {
+					if rq.Late && !returned[rq.ID] && effectiveTimeout(rq, p) == "tiny" {
+						lvl := "client-level"
+						if rq.Timeout == "tiny" {
+							lvl = "request-level"
+						}
+						sig = "timeout-never-fired level=" + lvl + " via=" + viaName(rq.Via)
+						what = "the configured timeout has expired and the server has not answered, but the caller is still waiting: the timeout that applies to this request was not applied"
+					}
+				}
+			}
+			viol(sig, what, res.Blocked, nil)
 		}
 		if res.Horizon {
 			viol("horizon", "step horizon exceeded", nil, nil)
@@ -180,8 +261,12 @@ func runHandoff(p hparams) func(e *schedx.Exec) *schedx.Outcome {
 					viol("failed-request-returned-response", "the transport failed but the caller got a response", o, nil)
 				}
 			case o.Err == client.ErrTimeoutOrCancel.Error():
-				if !cancelled[o.ID] {
-					viol("timeout-error-without-cancel", "ErrTimeoutOrCancel although the request was never cancelled", o, nil)
+				switch eff := effectiveTimeout(rq, p); {
+				case cancelled[o.ID] || eff == "tiny":
+				case eff == "huge" && rq.Timeout == "huge" && p.ClientTimeout == "tiny":
+					viol("timeout-precedence client-level-timeout-applied-over-request-level", "ErrTimeoutOrCancel for a request whose own (request-level) timeout is an hour: the shorter client-level timeout was applied although request-level timeouts take precedence", o, nil)
+				default:
+					viol("timeout-error-without-cancel", "ErrTimeoutOrCancel although the request was never cancelled and has no timeout that could have expired", o, nil)
 				}
 			case o.Err == errInjected.Error():
 				if !rq.Fail {
@@ -203,6 +288,13 @@ func runHandoff(p hparams) func(e *schedx.Exec) *schedx.Outcome {
 		out.Interesting = e.X.Spent(xplore.Sched) > 0
 		return out
 	}
+}
+
+func viaName(v string) string {
+	if v == "" {
+		return "setter"
+	}
+	return v
 }
 
 func threadKinds(b []string) []string {
@@ -250,5 +342,16 @@ func handoffScenarios() []schedx.Scenario {
 	add("two-callers-one-cancelled", hparams{Callers: [][]hreq{{{ID: "r1", Cancel: true}}, {{ID: "r2"}}}}, b1, b2, false)
 	add("fail-then-next", hparams{Callers: [][]hreq{{{ID: "r1", Fail: true}, {ID: "r2"}}}}, b2, b3, false)
 	add("cancel-cancel-next", hparams{Callers: [][]hreq{{{ID: "r1", Cancel: true}, {ID: "r2", Cancel: true}, {ID: "r3"}}}}, xplore.Bounds{0, 0, 1, 0}, b1, false)
+	// timeouts (request-level / client-level / both, given through setters or a Config; the server answers at any
+	// moment or only after the caller has given up), each followed by a request on the recycled objects whose own
+	// timeout must decide its fate
+	for _, via := range []string{"", "config"} {
+		n := "timeout-" + viaName(via) + "-"
+		add(n+"request-level-late-then-next", hparams{Callers: [][]hreq{{{ID: "r1", Timeout: "tiny", Via: via, Late: true}, {ID: "r2", Via: via}}}}, b2, b3, false)
+		add(n+"request-level-vs-response-then-next", hparams{Callers: [][]hreq{{{ID: "r1", Timeout: "tiny", Via: via}, {ID: "r2", Via: via}}}}, b2, b3, false)
+		add(n+"client-level-late-then-request-level-huge", hparams{ClientTimeout: "tiny", Callers: [][]hreq{{{ID: "r1", Via: via, Late: true}, {ID: "r2", Timeout: "huge", Via: via}}}}, b2, b3, false)
+		add(n+"request-level-tiny-over-client-level-huge", hparams{ClientTimeout: "huge", Callers: [][]hreq{{{ID: "r1", Timeout: "tiny", Via: via, Late: true}, {ID: "r2", Via: via}}}}, b2, b3, false)
+	}
+	add("timeout-two-callers-one-timing-out", hparams{ClientTimeout: "tiny", Callers: [][]hreq{{{ID: "r1", Late: true}}, {{ID: "r2", Timeout: "huge"}}}}, b1, b2, false)
 	return out
 }
